@@ -236,13 +236,11 @@ func (c *Cache[K, V]) MapToCache(m map[K]V, d time.Duration) error {
 
 // IsExpired checks if a cache item is expired.
 func (c *Cache[K, V]) IsExpired(key K) bool {
-	item, err := c.Get(key)
-	if item != nil && err != nil {
-		if item.expiration > time.Now().UnixNano() {
-			return true
-		}
-	}
-	return false
+	c.mu.RLock()
+	item, ok := c.items[key]
+	c.mu.RUnlock()
+
+	return ok && item.expiration > 0 && time.Now().UnixNano() > item.expiration
 }
 
 // cleanup runs the cache cleanup function at the specified time interval an removes all the expired cache items.
